@@ -123,7 +123,11 @@ def child_main(spec):
             if last:
                 state["armed"] = True
             try:
-                cur.execute(s)
+                if s.startswith("EM:"):
+                    sql_, rows_ = s[3:].split("|", 1)
+                    cur.executemany(sql_, [tuple(r) for r in json.loads(rows_)])
+                else:
+                    cur.execute(s)
             except Exception as e:  # noqa: BLE001
                 result["errors"].append([i, type(e).__name__, str(e)[:120]])
             if last:
@@ -135,6 +139,9 @@ def child_main(spec):
         # what is committed right now, seen by an independent raw connection (never sees the session's pending work)
         fs = snowflake.connector.connect.side_effect.__self__
         result["pre_exit"] = crash_norm(observe.catalog(fs, views=True, data=True))
+        # what the session itself sees (its own connection: includes work it has not committed)
+        own = getattr(conn._duck_conn, "_r", conn._duck_conn)  # noqa: SLF001
+        result["own_view"] = crash_norm(observe.catalog(fs, views=True, data=True, cur=own))
         write()
         if mode == "exception":
             raise RuntimeError("exception in the body")
